@@ -202,6 +202,13 @@ def build_harness(race=False):
     shutil.copy(os.path.join(REPO, "go.sum"), os.path.join(hdir, "go.sum"))
     env = dict(GOENV)
     cmd = ["go", "build", "-tags", "verif", "-o", out]
+    if REPO != "/repo":
+        # development only (VERIF_REPO): the same harness built against a scratch copy of the repository
+        mod = open(os.path.join(hdir, "go.mod")).read().replace("=> /repo", "=> " + REPO)
+        mf = os.path.join(BUILD, "harness_alt.mod")
+        open(mf, "w").write(mod)
+        shutil.copy(os.path.join(REPO, "go.sum"), os.path.join(BUILD, "harness_alt.sum"))
+        cmd += ["-modfile", mf]
     if race:
         env["CGO_ENABLED"] = "1"
         cmd.insert(2, "-race")
